@@ -737,7 +737,7 @@ func c13Instances(add func(*Instance), thorough bool) {
 	for _, b := range shapes {
 		base := with(b.p, "L", 7, "eff", 1, "acow", 0, "xb", 0, "xm", 262143)
 		for _, k := range []string{"ac0", "ac1", "ac2"} {
-			if v := b.p[k]; v == 100 {
+			if v := b.p[k]; v == 100 || v == 14 {
 				base = with(base, "xb", (map[string]int{"ac0": 0, "ac1": 1, "ac2": 2}[k])*65536+4150, "xm", 15)
 			} else if v == 103 {
 				base = with(base, "xb", 56, "xm", 15)
